@@ -44,13 +44,20 @@ def regenerate() -> list[str]:
                        capture_output=True, text=True, timeout=120)
     if r.returncode != 0:
         msgs.append('gen_sched failed: ' + r.stderr[-2000:])
-    for tool, out in (('gen_jobs.py', 'GenJobs.v'), ('gen_taskmgr.py', 'GenTaskMgr.v')):
-        r = subprocess.run(['python3', str(VERIF / 'tools' / tool), str(REPO), str(COQ / 'gen' / out)],
-                           capture_output=True, text=True, timeout=120)
-        if r.returncode != 0:
-            msgs.append(f'{tool} failed: ' + r.stderr[-2000:])
+    for tool, out in (('gen_jobs.py', 'GenJobs.v'), ('gen_taskmgr.py', 'GenTaskMgr.v'), ('gen_prod.py', 'GenProd.v'),
+                      ('gen_dst.py', 'GenDst.v'), ('gen_instant.py', 'GenInstant.v')):
+        target = COQ / 'gen' / out
+        try:
+            r = subprocess.run(['python3', str(VERIF / 'tools' / tool), str(REPO), str(target)],
+                               capture_output=True, text=True, timeout=120)
+            failed, err = r.returncode != 0, r.stderr[-2000:]
+        except subprocess.TimeoutExpired:
+            failed, err = True, 'timeout'
+        if failed:          # never keep an older translation
+            target.write_text(f'(* {tool} crashed *)\n')
+            msgs.append(f'{tool} failed: ' + err)
     # (source the translator does not recognise is not reported here: GenSched.v then has no definitions and the
-    #  property files that state the tie - C01 C02 C09 C10 (scheduler), C07 C08 (job classes), C11 C12 (task managers) - do not build, the others are not concerned)
+    #  property files that state the tie - C01 C02 C09 C10 (scheduler), C07 C08 (job classes), C11 C12 (task managers), C04 C05 C13 C14 C16 (producers), C20 (dst_param), C19 (get_instant) - do not build, the others are not concerned)
     return msgs
 
 
